@@ -25,9 +25,27 @@ from xdsl.pattern_rewriter import (GreedyRewritePatternApplier, PatternRewriter,
 from xdsl.rewriter import BlockInsertPoint, InsertPoint
 from xdsl.utils.worklist import Worklist
 
-from xv.canon import canon_attr, canon_ir
+import xv.canon as _canon
+from xv.canon import canon_ir
 from xv.harness import shash
 from xv.irsan import Broken, check_tree
+
+# Attributes are immutable: memoise the canonical form by object identity (strong reference kept, so the id cannot be
+# recycled) for this worker process only; cleared per case. canon_ir looks canon_attr up in its module globals.
+_orig_canon_attr = _canon.canon_attr
+_memo: dict[int, tuple] = {}
+
+
+def canon_attr(a):
+    e = _memo.get(id(a))
+    if e is not None and e[0] is a:
+        return e[1]
+    r = _orig_canon_attr(a)
+    _memo[id(a)] = (a, r)
+    return r
+
+
+_canon.canon_attr = canon_attr
 
 
 # ------------------------------------------------------------------------------------------------ IR helpers
@@ -139,6 +157,7 @@ class Case:
         self.mutation_kinds: list[str] = []
         self.current_pattern = "<applier>"
         self.api_calls = 0
+        self.flag_explained = False
 
     def number(self, op):
         i = id(op)
@@ -183,6 +202,7 @@ class Act:
         c.calls.append({"api": api, "n_events": len(ev)})
         c.stats["api_events_expected"] += len(expected)
         if mutating and not rw.has_done_action:
+            c.flag_explained = True
             c.violate(f"{api}:flag-not-set", f"rewriter.{api} changed IR but has_done_action is False afterwards",
                       {"api": api})
         seen = set()
@@ -272,7 +292,7 @@ class Act:
     def create_block(self, rw, bip, arg_types=()):
         c = self.c
         e0 = len(c.events)
-        blk = self._run("create_block", rw, [], lambda: rw.create_block(bip, arg_types), mutating=False)
+        blk = self._run("create_block", rw, [], lambda: rw.create_block(bip, arg_types))
         if c.monitoring:
             if not any(k == "blk" and o is blk for k, o, _x in c.events[e0:]):
                 c.violate("create_block:created-block-not-notified", "block creation handler was not called")
@@ -470,6 +490,14 @@ class CreateBlock(P):
             self.A.notify(rw, op)
 
 
+class CreateBlockOnly(P):
+    """The whole rewrite is one create_block call (a second block for a single-block region)."""
+
+    def match_and_rewrite(self, op, rw):
+        if kind(op) == "cbo" and op.regions and len(op.regions[0].blocks) == 1:
+            self.A.create_block(rw, BlockInsertPoint.at_end(op.regions[0]), [i32])
+
+
 class InlineDetachedBlock(P):
     def match_and_rewrite(self, op, rw):
         if kind(op) == "ib" and level(op) > 0:
@@ -502,15 +530,15 @@ class LowerDef(P):
 PATTERNS = [EraseDead, Lower, LowerTwo, Forward, FoldIfOperandLow, ModifyInPlace, InsertOnce, InlineRegion,
             DropBlockArg, DropBlockArgUnsafe, RauwOperand, ReplaceUsesIf, RetypeResult, RetypeBlockArg,
             InlineRegionBlocks, MoveRegion, MultiReplaceNone, InsertBlockArg, UnsafeEraseChain, CreateBlock,
-            InlineDetachedBlock, EraseNext, EraseParent, LowerDef]
+            InlineDetachedBlock, EraseNext, EraseParent, LowerDef, CreateBlockOnly]
 PATTERN_BY_NAME = {p.__name__: p for p in PATTERNS}
 KIND_OF = {"EraseDead": "dead", "Lower": "a", "LowerTwo": "b", "Forward": "id", "FoldIfOperandLow": "c",
            "ModifyInPlace": "m", "InsertOnce": "i", "InlineRegion": "r", "DropBlockArg": "g", "DropBlockArgUnsafe": "gx",
            "RauwOperand": "u", "ReplaceUsesIf": "w", "RetypeResult": "t", "RetypeBlockArg": "tb",
            "InlineRegionBlocks": "ir", "MoveRegion": "mv", "MultiReplaceNone": "n", "InsertBlockArg": "ga",
            "UnsafeEraseChain": "ue", "CreateBlock": "cb", "InlineDetachedBlock": "ib", "EraseNext": "eo",
-           "EraseParent": "ep", "LowerDef": "ld"}
-REGION_KINDS = ("r", "g", "gx", "tb", "ir", "mv", "ga", "cb")
+           "EraseParent": "ep", "LowerDef": "ld", "CreateBlockOnly": "cbo"}
+REGION_KINDS = ("r", "g", "gx", "tb", "ir", "mv", "ga", "cb", "cbo")
 INERT = ["x", "x", "p"]
 
 
@@ -533,14 +561,21 @@ def gen_block(rng, depth, outer_vals, nops, kinds, maxdepth, with_arith):
         k = rng.choice(kinds)
         nopnd = rng.choice([0, 1, 1, 2, 3]) if vals else 0
         opnds = [rng.choice(vals) for _ in range(nopnd)]
+        if k in ("c", "ld") and rng.random() < 0.8:
+            # these depend on the op defining operand 0 ("a" at level 0 resp. > 0): make that shape likely
+            adefs = [v for v in vals if isinstance(v.owner, Operation) and kind(v.owner) == "a"]
+            if adefs:
+                opnds = [rng.choice(adefs)] + opnds[1:]
         regions = []
-        if (k in REGION_KINDS or rng.random() < 0.15) and depth < maxdepth:
+        if (k in REGION_KINDS or rng.random() < (0.5 if k == "x" else 0.15)) and depth < maxdepth:
             nblocks = 2 if (k in ("ir", "mv", "cb", "x") and rng.random() < 0.3) else 1
             regions = [Region([gen_block(rng, depth + 1, vals, rng.choice([0, 1, 2, 4]), kinds, maxdepth, with_arith)
                                for _ in range(nblocks)])]
         nres = 2 if k in ("u", "w", "n") else rng.choice([0, 1, 1, 2])
-        if k in ("r", "ir"):
+        if k in ("r", "ir") or (k == "x" and regions and rng.random() < 0.6):
             nres = 0
+        if k == "x" and regions and rng.random() < 0.6:
+            regions[0].blocks[0].add_op(mk("ep", (), 0, 0))
         if k == "ue":
             nres = rng.choice([1, 2])
         if k == "id":
@@ -548,6 +583,8 @@ def gen_block(rng, depth, outer_vals, nops, kinds, maxdepth, with_arith):
             nres = 1
         op = mk(k, opnds, nres, rng.choice([0, 0, 1, 2, 3]), regions, pure=(k == "p"))
         b.add_op(op)
+        if k == "eo" and rng.random() < 0.7:
+            b.add_op(mk(rng.choice(["dead", "x"]), (), rng.choice([0, 1]), 0))
         if k == "ue":
             for _u in range(rng.choice([1, 1, 2])):
                 b.add_op(mk("uu", [rng.choice(op.results) for _ in range(rng.choice([1, 2]))], 0, 0))
@@ -619,7 +656,12 @@ def check_invocation(c: Case, op, before: Snap, after: Snap, ev, flag, c0, c1):
     ctx = {"matched_op": describe(op), "rewriter_calls": apis, "events": [e[0] for e in ev][:40]}
     if changed_canon or changed_ident:
         c.stats["mutating_invocations"] += 1
-        if not flag:
+        if flag:
+            c.stats["mutating_invocations_flagged"] += 1
+        elif c.flag_explained:
+            c.stats["unflagged_mutations_explained_by_api_check"] += 1  # already reported as <api>:flag-not-set
+        else:
+            c.stats["unflagged_mutations_unexplained"] += 1
             c.violate("flag-unset-after-mutation",
                       f"IR changed during a match (canon changed={changed_canon}, identity changed={changed_ident}) but "
                       f"rewriter.has_done_action is False; rewriter calls {apis}", ctx)
@@ -664,6 +706,8 @@ def check_invocation(c: Case, op, before: Snap, after: Snap, ev, flag, c0, c1):
         c.violate("unnotified:" + what, f"{describe(s.op)} stayed in the region, its "
                   f"{'operands' if opnd_changed else 'result types'} changed, no modification notification; "
                   f"rewriter calls {apis}", ctx)
+    if (changed_canon or changed_ident) and not c.acted:
+        c.stats["applier_fold_rewrites" if any(k == "rep" for k, _o, _x in ev) else "applier_dce_erasures"] += 1
     c.stats["listener_events"] += len(ev)
     for k, _o, _x in ev:
         c.stats["events:" + k] += 1
@@ -699,6 +743,7 @@ class Mon(RewritePattern):
         c.calls = []
         c.explained = set()
         c.acted = set()
+        c.flag_explained = False
         c.current_pattern = "<applier>"
         self.inner.match_and_rewrite(op, rw)
         c1 = canon_ir(c.module)
@@ -753,6 +798,7 @@ def module_text(module):
 
 
 def run_case(seed, size, want_text=False):
+    _memo.clear()
     module, names, cfg, wrng = gen_case(seed, size)
     c = Case(seed, size)
     c.module, c.region, c.cfg = module, module.body, cfg
@@ -810,20 +856,28 @@ def run_case(seed, size, want_text=False):
     canon_end = canon_ir(module)
     changed = canon_start != canon_end
     if not c.diverged:
-        if changed and not ret:
-            c.violate("returned-false-but-ir-changed", "rewrite_module returned False although canon(module) changed")
+        if (changed or c.stats["mutating_invocations"]) and not ret:
+            if (c.stats["mutating_invocations_flagged"] == 0 and c.stats["unflagged_mutations_unexplained"] == 0
+                    and c.stats["unflagged_mutations_explained_by_api_check"] > 0):
+                # direct consequence of an <api>:flag-not-set already reported by layer A: no flag was ever raised
+                c.stats["return_false_explained_by_unset_flag"] += 1
+            else:
+                c.violate("returned-false-but-ir-changed",
+                          f"rewrite_module returned False although the IR changed (canon changed={changed}, "
+                          f"{c.stats['mutating_invocations']} mutating invocations, "
+                          f"{c.stats['mutating_invocations_flagged']} of them with the flag set)")
         if ret and not changed:
             c.stats["returned_true_canon_unchanged"] += 1
         if ret:
             c.stats["walker_returned_true"] += 1
-        if c.stats["mutating_invocations"] and not ret:
-            c.violate("returned-false-but-ir-changed", "rewrite_module returned False although invocations mutated the IR")
+        if changed:
+            c.stats["cases_ir_changed"] += 1
         try:
             check_tree([module])
             c.stats["irsan_walks"] += 1
         except Broken as e:
             c.violate("irsan:" + str(e).split(":")[0][:60], "IR links / use lists broken after the walk: " + str(e))
-        if cfg["apply_recursively"] and not c.violations:
+        if cfg["apply_recursively"]:
             i0 = Snap(c.region)
             for o in [s.op for s in i0.ops.values()]:
                 if not attached_under(o, c.region):
